@@ -55,8 +55,8 @@ func checkC20(c *Ctx) {
 	c.Rule("C20.R1", "model evaluation with symbolic parameters: proj.Parse of an OGC WKT text and of the PROJ.4 text describing the same system (each of the five WKT projection names, an oblique projection for centre/azimuth names, central_parallel, a plain geographic system) stores every parameter in the same SR field: standard_parallel_1↔lat_1, standard_parallel_2↔lat_2, latitude_of_origin/latitude_of_center/central_parallel↔lat_0, central_meridian↔lon_0, longitude_of_center↔lonc, false_easting↔x_0, false_northing↔y_0, scale_factor↔k_0, azimuth↔alpha")
 	c.Rule("C20.R2", "model evaluation: angular parameters come out as symbol × deg2rad from either spelling and ratios as the bare symbol; a WKT false origin comes out as symbol × declared linear unit (PROJ.4: the bare symbol, always metres); UNIT's factor reaches SR.ToMeter; SPHEROID[a, 1/f] and +a +rf give identical terms for A, B, Rf, A2, B2, Es, E, Ep2 after DeriveConstants (branches on parameter values follow a stated reference valuation: an ordinary ellipsoid)")
 	c.Rule("C20.R3", "model evaluation: the projection name stored by the WKT parser and the one stored by the PROJ.4 parser are registered for the same constructor; every name in the definition registry after start-up is either a definition whose registered reference equals a fresh parse of its text, or an alias bound to the identical *SR of a definition; WGS84 ≡ EPSG:4326 and the web-mercator aliases ≡ EPSG:3857")
-	c.Rule("C20.R6", "parameters are applied in textual order: no parser loop that stores into the spatial reference ranges over a map")
-	c.Rule("C20.R7", "the datum-shift list is stored with one element per value written (make(len(list)) filled by the parse loop), never truncated or replaced")
+	c.Rule("C20.R6", "model evaluation: a text (PROJ.4 with competing keys k/k_0, units/to_meter, ellps/a, datum/towgs84 in either order; a projected WKT) parsed with every ranged-over map walked in insertion order and again in the reverse order gives identical references: the result of a parse does not depend on Go's unspecified map order")
+	c.Rule("C20.R7", "model evaluation: a datum shift of three and of seven values written as TOWGS84[…] and as +towgs84=… is stored with one element per value written, in order, and identically from both spellings")
 	c.Rule("C20.R5", "model evaluation of SR.Equal on parsed references (reflection described by go/types, ULP comparison of two generic values true exactly for identical terms): true for two parses of one text in both argument orders; false — never a panic — when a float (first or last), a set/unset (NaN) marker, a string, a flag, a datum-shift value, the length of the datum-shift list, a nested pointer's nil-ness or a float behind a nested pointer differs")
 	c.Rule("C20.R4", "NewTransform returns the nil (identity) transformer on exactly the paths where Equal is true")
 	p := c.P.Pkg("proj")
@@ -67,11 +67,10 @@ func checkC20(c *Ctx) {
 	a := &c20{c: c, info: p.TypesInfo, p: p}
 	c20model(c)
 	a.identity()
-	a.parseOrderAndShift()
 	c.Floor("C20.R1", 11)
 	c.Floor("C20.R2", 13)
 	c.Floor("C20.R3", 10)
-	c.Floor("C20.R6", 1)
+	c.Floor("C20.R6", 3)
 	c.Floor("C20.R7", 2)
 	c.Floor("C20.R5", 8)
 	c.Floor("C20.R4", 1)
